@@ -2,6 +2,6 @@
 # usage: tools/try_seed.sh <patch.diff> <property id> [extra args for check]   -- applies to /repo, runs check, reverts
 P=$1; ID=$2; shift 2
 cd /repo && git apply "$P" || { echo "APPLY FAILED $P"; exit 9; }
-cd /verif && ./check $ID "$@" > /tmp/try_seed.$$.log 2>&1; rc=$?
+cd /verif && VERIF_EVIDENCE_DIR=/tmp/try_seed_ev VERIF_REPLAY_DIR=/tmp/try_seed_replays ./check $ID "$@" > /tmp/try_seed.$$.log 2>&1; rc=$?
 cd /repo && git checkout -- . 
 echo "== $P on $ID: exit $rc"; grep -E "VIOLATION|HARNESS-ERROR|counterexample|KNOWN" /tmp/try_seed.$$.log | cut -c1-400; rm -f /tmp/try_seed.$$.log
